@@ -139,7 +139,8 @@ class Helper:
             if d is not None:
                 self.defaults[arg.arg] = d
         self.is_method = owner[0] == "class"
-        self.body = _fold_early_returns(_strip_doc(node.body))
+        from .astutil import live
+        self.body = _fold_early_returns(live(_strip_doc(node.body), node))
         self.expr = None       # expression helpers
         self.stmts = None      # statement helpers: (stmts, return expr|None)
         self.ok = self._classify()
